@@ -122,6 +122,9 @@ pub fn worker_main(args: &[String]) -> i32 {
             let _ = writeln!(o, "V {}", serde_json::to_string(&rec).unwrap());
             let _ = o.flush();
         }
+        if crate::env::REF_HUNG.load(Ordering::SeqCst) {
+            oc.poisoned = true;
+        }
         if oc.poisoned {
             let mut o = out.lock();
             stats.counters.insert("cache.hits".into(), cache.hits);
@@ -590,6 +593,9 @@ pub fn run_case_in_process(case: &Case) -> CaseOutcome {
     let mut oc = engines::run_case(case, &mut ctx);
     let panics = crate::ctl::take_panics();
     engines::after_case(case, &mut oc, &panics, &mut stats);
+    if crate::env::REF_HUNG.load(Ordering::SeqCst) {
+        oc.poisoned = true;
+    }
     if !oc.poisoned {
         env.cleanup();
         let _ = std::fs::remove_dir_all(scratch_base());
